@@ -11,8 +11,15 @@
 
    2. put_resize_drift: a Put onto a value that is already accounted, carrying a different size, overwrites
       itemBytes without adjusting the gauge; removing the value then leaves the gauge off by the
-      difference (here negative).  This is why C16_bytes_gauge_exact carries the hypothesis [puts_ok]. *)
-From SG Require Import Base.Prelude C16.RevCache C16.RevCacheProofs C16.RevCacheConc.
+      difference (here negative).  This is why C16_bytes_gauge_exact carries the hypothesis [puts_ok].
+
+   3. shares_needs_no_store: C16_get_during_load_waits_and_shares carries the hypothesis that no Put/Upsert
+      stored into the value ([est]).  Without it the statement is false, and rightly so: the load fails,
+      a Put that found the placeholder and is parked on value.lock stores its revision (store clears err),
+      a Get that waited on the same value is then served that revision, while the loading Get returned
+      the error.  The harness sees both orders on the real code (the waiting Get returns the error when it
+      gets the lock before the Put).  Not a defect: the Put carries what storage now holds. *)
+From SG Require Import Base.Prelude C16.RevCache C16.RevCacheProofs C16.RevCacheConc C16.RevCacheStep.
 Open Scope Z_scope.
 
 Definition leak_schedule : list cact :=
@@ -44,4 +51,20 @@ Proof.
   split; [reflexivity|]. split; [reflexivity|]. split; [vm_compute; congruence|].
   cbn [puts_ok]. intros (_ & P & _). cbn [put_ok] in P.
   specialize (P (mkV (Some (mkC 1 10)) 10 Sized) eq_refl). cbn in P. congruence.
+Qed.
+
+Definition share_schedule : list eact :=
+  [EGet 0 7%N; ELoadBegin 0; EGet 1 7%N; EPut 2 7%N (mkC 1 47); EStep 2 LPBytes; EStep 2 LPCas; EStep 2 LPInc;
+   ELoadEnd 0; EStep 2 LPStore; ELoadBegin 1].
+
+Theorem C16_shares_needs_no_store :
+  exists ksize n l acts s e1 e2,
+    erun ksize (einit n l) acts = Some s /\ In e1 (elog s) /\ In e2 (elog s) /\
+    ge_val e1 = ge_val e2 /\ ge_res e1 <> ge_res e2 /\ est s (ge_val e1) = true.
+Proof.
+  exists (fun _ => 47%N), 3%nat, (fun _ => LErr 404), share_schedule. eexists.
+  exists (mkGE 1 0 (LOk (mkC 1 47)) true), (mkGE 0 0 (LErr 404) false).
+  split; [vm_compute; reflexivity|].
+  split; [left; reflexivity|]. split; [right; left; reflexivity|].
+  split; [reflexivity|]. split; [discriminate | reflexivity].
 Qed.
